@@ -41,7 +41,9 @@ def _get_seq_with_type(seq, bufsize=None):
         seq_type = "fill_request"
         if not ct.is_fill_request_el(seq):
             seq = fill_request_seq.FillRequestSeq(
-                *seq, bufsize=bufsize,
+                # bufsize None (whole flow in Split, not given by Zip)
+                # is not a block size for FillRequest
+                *seq, bufsize=(1 if bufsize is None else bufsize),
                 # if we have a FillRequest element inside,
                 # it decides itself when to reset.
                 reset=False,
